@@ -245,3 +245,19 @@ Proof.
   intros f b ops v Hc _. subst v. simpl in *.
   eapply cache_sound_gen; [|exact Hc]. intros k e He. discriminate.
 Qed.
+
+(** "a configured TTL can only shorten": the ttl in force for a rule (rule-level
+    value, else the prototype's) bounds whatever an instance created for that
+    rule hands to the cache *)
+Theorem rule_level_ttl_bounds : forall f m conf rule c exp now ttl,
+  fx3 f = true ->
+  spec_cfg m conf rule = Some c ->
+  store f m (withconfig_ttl f m (create_ttl m conf) rule) exp now = Some ttl ->
+  ttl <= c.
+Proof.
+  intros f m conf rule c exp now ttl Hf Hc Hs.
+  destruct (exec_state_spec f m conf rule c (guard_F3_fixed f m conf rule Hf) Hc) as [Hst|(c' & Hst & Hle & Hm)];
+    unfold exec_state in Hst; rewrite Hst in Hs.
+  - eapply config_only_shortens; exact Hs.
+  - subst m. rewrite store_remote_disabled in Hs by exact Hle. discriminate.
+Qed.
